@@ -33,6 +33,9 @@ type Case struct {
 	VX    *VRep  `json:"vx,omitempty"`    // round 5: vector operand given as a representation (sparse / view / ...) instead of X
 	VY    *VRep  `json:"vy,omitempty"`    // second vector operand (VdotV)
 	MA    *MRep  `json:"ma,omitempty"`    // matrix operand given as a representation instead of N, M, X
+	Steps []Step `json:"steps,omitempty"` // round 6: Op == "Seq": a history of calls on one receiver (initial content Cold) and one scratch bank
+	TD    []V    `json:"td,omitempty"`    // initial ("dirty") content of the scratch scalars t[0], t[1], t[2] (types TT)
+	DD    bool   `json:"dd,omitempty"`    // receiver and scratch also carry derivative arrays on entry (Real types, Order > 0)
 }
 
 type entry struct {
@@ -283,6 +286,9 @@ func track(order int, ops ...interface{}) {
 }
 
 func run(c Case) (res Result) {
+	if c.Op == "Seq" {
+		return runSeq(c)
+	}
 	defer func() {
 		if r := recover(); r != nil {
 			if s, ok := r.(string); ok && strings.HasPrefix(s, "C02-harness") {
